@@ -515,12 +515,12 @@ func TestC23(t *testing.T) {
 		if i < 40 && i%7 == 0 {
 			m.Sample(map[string]any{"kind": kindNames[kind], "mutation": mutNames[mut], "input": mon.Hex(in)})
 		}
+		cp := append([]byte(nil), in...) // readers get a private copy: they must not write through it
 		for _, rd := range readers {
 			p := rd.pred(in)
 			var ok bool
 			var val string
 			var rest []byte
-			cp := append([]byte(nil), in...)
 			pv, stack := mon.Panics(func() { ok, val, rest = rd.run(cp) })
 			m.Eval()
 			wit := func() map[string]any {
@@ -535,6 +535,7 @@ func TestC23(t *testing.T) {
 			}
 			if !bytes.Equal(cp, in) {
 				m.Violation("reader-modified-input:"+rd.name, wit())
+				cp = append([]byte(nil), in...)
 			}
 			m.Distinct(fmt.Sprintf("%s/%s/%s/%s/%s", kindNames[kind], mutNames[mut], rd.name, p.zone, p.reason))
 			switch p.zone {
